@@ -60,16 +60,19 @@ theorem gen_updater :
     Gen.C04.updaterInitPortCb = ["self.cf.add_port_callback(CRTPPort.PARAM, self._new_packet_cb)"] :=
   ⟨rfl, rfl, gen_lens, rfl, rfl, rfl, rfl, rfl, rfl⟩
 
-/-- `_param_updated`: where the index and the value are read from, and what is cached -/
+/-- `_param_updated`: where the index and the value are read from, what is cached, and when "all updated" is signalled
+(connected, every value fetched, not signalled before) -/
 theorem gen_param_updated :
     Gen.C04.updatedIdIndex = ["1", "0"] ∧
     Gen.C04.updatedVarId = ["struct.unpack('<H', pk.data[id_index:id_index + 2])[0]", "pk.data[0]"] ∧
     Gen.C04.updatedUnpacks = ["'<H'|pk.data[id_index:id_index + 2]", "element.pytype|pk.data[id_index + 2:]", "element.pytype|pk.data[1:]"] ∧
     Gen.C04.updatedValueStr = ["value.__str__()"] ∧ Gen.C04.updatedStore = ["value_s"] ∧
+    Gen.C04.updatedCompleteTest = ["self.cf.is_connected()", "self._check_if_all_updated()", "not self.is_updated"] ∧
+    Gen.C04.updatedCompleteBody = ["self.is_updated = True", "self._initialized.set()", "self.all_updated.call()"] ∧
     Gen.C04.updatedCalls = ["self.param_update_callbacks[complete_name].call(complete_name, value_s)",
       "self.group_update_callbacks[element.group].call(complete_name, value_s)", "self.all_update_callback.call(complete_name, value_s)",
       "self.all_updated.call()", "self._initialized.set()"] :=
-  ⟨rfl, rfl, rfl, rfl, rfl, rfl⟩
+  ⟨rfl, rfl, rfl, rfl, rfl, rfl, rfl, rfl⟩
 
 /-- reads: index width from the protocol version at call time; misc requests: `<BH` command, index; registration tests -/
 theorem gen_requests :
